@@ -53,6 +53,17 @@ fn child_main(spec: &RunSpec, replay: Option<(Vec<u32>, Vec<u32>)>) -> ! {
         None => ChooserMode::Prng(Rng::new(mix(&[spec.seed, props::prop_hash(spec.prop.id), spec.run]))),
     };
     sim::init(mode);
+    // C03 is about every built-in action and every interrupted operation: a third of its seeded
+    // runs use the iterator engine (consumer calls interrupted by nested deliveries, channel
+    // exfiltrators sending from inside the handler)
+    if spec.prop.id == "C03" && spec.run >= spec.prop.sweep_runs && spec.run % 3 == 2 {
+        crate::itersim::run(spec);
+    }
+    // C05's concurrent part (unique ids, exactly one of two racing unregister(id) succeeds,
+    // registry == model under interleavings) runs on the registry engine
+    if spec.prop.id == "C05" && spec.run % 3 == 2 {
+        crate::regsim::run(spec);
+    }
     match spec.prop.engine {
         Engine::Reg => crate::regsim::run(spec),
         Engine::Chan => crate::chansim::run(spec),
